@@ -221,6 +221,8 @@ class Exec:
             if verbose:
                 print("  %s -> child_rx=%d peer_rx=%d hooks=%s" % (act, len(rig.child_rx), len(peer.plain), rig.hook_names()))
             settle()
+            if steps <= 400:
+                t.state([s["side"], s["tls"], s["opens"], len(rig.hooks), len(rig.held), len(rig.child_rx), len(peer.plain), len(pending), len(wleft), rig.tls_conn.state.value])
             # step invariant: what the inner layer / the peer have so far is a prefix of what was written
             if order_ok and not (want_rx.startswith(bytes(rig.child_rx)) and want_tx.startswith(bytes(peer.plain))):
                 order_ok = False
@@ -245,9 +247,15 @@ class Exec:
                        {"crash": rig.crash, "addon_errors": rig.addon_errors, "peer_error": repr(peer.error), "peer_done": peer.done, "hooks": hooks, "logs": rig.logs[-3:]}):
             return
         rx = bytes(rig.child_rx)
-        t.judge("child_gets_exact_bytes_once_in_order", order_ok and rx == want_rx, f, case, _summ(want_rx), _summ(rx, want_rx))
+        if order_ok and rx == want_rx:
+            t.ok("child_gets_exact_bytes_once_in_order")
+        else:
+            t.bad("child_gets_exact_bytes_once_in_order", f, case, _summ(want_rx), dict(_summ(rx, want_rx), prefix_at_every_step=order_ok))
         got = bytes(peer.plain)
-        t.judge("peer_decrypts_exact_bytes", got == want_tx and bytes(rig.child_tx) == want_tx, f, case, _summ(want_tx), _summ(got, want_tx))
+        if got == want_tx and bytes(rig.child_tx) == want_tx:
+            t.ok("peer_decrypts_exact_bytes")
+        else:
+            t.bad("peer_decrypts_exact_bytes", f, case, _summ(want_tx), _summ(got, want_tx))
         # close: exactly one ConnectionClosed for the TLS connection, after the last data event; none without a close
         log = rig.child_log
         closes = [i for i, e in enumerate(log) if e == ("closed", "tls")]
